@@ -17,9 +17,7 @@ drains the queue; .rxbs == concatenation of the chunks the double delivered, in 
 (== wire log rx). Message bytes are position coded (byte i of the stream is i % 251) so any
 loss, repeat or reordering changes the stream.
 """
-import errno
 import itertools
-import os
 import socket
 
 from hypothesis import strategies as st
@@ -160,8 +158,6 @@ def run_case(case):
     obj = rig.obj
     queued = bytearray()
     rxpos = 0
-    eof = False
-    wbs = 0
     info = {"partial": False, "wb": False, "drained": False, "rx_chunks": 0}
 
     def check(step, op):
@@ -344,7 +340,9 @@ def run_real(case):
                 return False
             if bytes(got) != allq[:len(got)]:
                 fails.append(("tx-stream:" + variant, "step %d %r: bytes read by the peer are not a prefix of the queued stream "
-                              "(first difference near %d)" % (step, op, next(i for i in range(len(got)) if got[i] != allq[i]))))
+                              "(first difference at byte %d of %d read, %d queued)"
+                              % (step, op, next((i for i in range(min(len(got), len(allq))) if got[i] != allq[i]),
+                                                min(len(got), len(allq))), len(got), len(allq))))
                 return False
             if wl is not None and wl.tx_bytes() != allq[:nacc]:
                 fails.append(("wirelog-tx:" + variant, "step %d %r: wire log tx record (%d bytes) != bytes accepted by the kernel (%d)"
@@ -361,7 +359,6 @@ def run_real(case):
                     queued.extend(data)
                     obj.tx(data)
                 elif op[0] == "svtx":
-                    nmsgs = len(obj.txes)
                     obj.serviceTxes()
                     after = sum(len(d) for d in obj.txes)
                     if before and after == before:
@@ -596,22 +593,28 @@ def work(shard, seed, tier):
 
 
 def history_strategy(variant):
-    toks = [st.just(D.WB), st.just(0), st.integers(1, 6), st.integers(1, 400), st.just(D.FULL)]
+    """Histories are built from phrases (queue; queue + service with 1-5 scripted send results; service;
+    receive) so that most of them meet both a partial send and a would-block (see class counts)."""
+    toks = [st.just(D.WB), st.just(D.WB), st.just(0), st.integers(1, 6), st.integers(1, 6), st.integers(1, 400),
+            st.just(D.FULL)]
     if variant in TLS_VARIANTS:
         toks.append(st.sampled_from([D.WANT_READ, D.WANT_WRITE]))
     tok = st.one_of(*toks)
-    sizes = st.one_of(st.integers(1, 6), st.integers(1, 80), st.integers(200, 2048))
+    sizes = st.one_of(st.integers(1, 6), st.integers(2, 80), st.integers(200, 2048))
     rxitem = st.one_of(st.none(), st.integers(1, 20), st.integers(1, 5))
+    sv = st.builds(lambda t: ["svtx", t], st.lists(tok, min_size=1, max_size=5))
     kinds = [
-        st.builds(lambda n: ["tx", n], sizes),
-        st.builds(lambda t: ["svtx", t], st.lists(tok, max_size=5)),
-        st.builds(lambda t: ["svtx", t], st.lists(tok, max_size=5)),
-        st.builds(lambda t: ["svrx", t], st.lists(rxitem, max_size=4)),
-        st.builds(lambda t: ["svrx1", t], st.lists(rxitem, max_size=3)),
+        st.builds(lambda n: [["tx", n]], sizes),
+        st.builds(lambda n, s1: [["tx", n], s1], sizes, sv),
+        st.builds(lambda n, m, s1, s2: [["tx", n], ["tx", m], s1, s2], sizes, sizes, sv, sv),
+        st.builds(lambda s1: [s1], sv),
+        st.builds(lambda t: [["svrx", t]], st.lists(rxitem, max_size=4)),
+        st.builds(lambda t: [["svrx1", t]], st.lists(rxitem, max_size=3)),
     ]
     if variant.startswith("Driver"):
-        kinds.append(st.builds(lambda t: ["svtx1", t], st.lists(tok, max_size=2)))
-    return st.lists(st.one_of(*kinds), min_size=1, max_size=120)
+        kinds.append(st.builds(lambda t: [["svtx1", t]], st.lists(tok, max_size=2)))
+    return st.lists(st.one_of(*kinds), min_size=3, max_size=60).map(
+        lambda ps: [op for ph in ps for op in ph][:120])
 
 
 def real_strategy():
